@@ -24,6 +24,28 @@ def decResponse (env : Env) (ty : Ty) (b : Bytes) : String :=
     | .panic w => s!"panic {w}"
   if s1 = s2 then s1 ++ " abs=same" else s1 ++ " abs=DIFF[" ++ s2 ++ "]"
 
+/-- `src <hex> op…`: primitive reads through the faithful context, one result per op -/
+def srcOps (c : Ctx) : List String → List String
+  | [] => []
+  | op :: rest =>
+    let go {α : Type} (p : DProg α) (sh : α → String) : List String :=
+      match runCtx p c with
+      | .ok (a, c') => sh a :: srcOps c' rest
+      | .err e => showErr e :: srcOps c rest
+      | .panic w => ("panic " ++ w) :: srcOps c rest
+    if op = "u8" then go readU8 (fun b => toString b.toNat)
+    else if op = "vu" then go readVarU32 (fun n => toString n)
+    else if op = "vi" then go readVarI32 (fun n => toString n)
+    else if op.startsWith "b" then
+      match (op.drop 1).toNat? with
+      | some n => go (readBytes n) (fun bs => hexOfBytes bs)
+      | none => ["bad-op"]
+    else if op.startsWith "s" then
+      match (op.drop 1).toNat? with
+      | some n => go (skipN n) (fun _ => "ok")
+      | none => ["bad-op"]
+    else ["bad-op"]
+
 def step (env : Env) (line : String) : Env × String :=
   match Sexp.parseLine line with
   | none => (env, "bad-request unbalanced")
@@ -88,6 +110,10 @@ def step (env : Env) (line : String) : Env × String :=
       | .ok (v, c) => (env, s!"ok {v} {c.cur.pos}")
       | .err e => (env, s!"err {showErr e}")
       | .panic w => (env, s!"panic {w}")
+    | none => (env, "bad-request hex")
+  | some (.atom "src" :: .atom h :: ops) =>
+    match bytesOfHex h with
+    | some b => (env, String.intercalate ";" (srcOps (Ctx.new b) (ops.filterMap fun | .atom a => some a | _ => none)))
     | none => (env, "bad-request hex")
   | some _ => (env, "bad-request unknown")
 
